@@ -4,6 +4,7 @@ package main
 // generated ghost file (overlay, never written into /repo) -> type-check again -> go/ssa.
 
 import (
+	"regexp"
 	"fmt"
 	"go/ast"
 	"go/parser"
@@ -472,7 +473,7 @@ func generateGhost(p *packages.Package, funcs map[string]*ssa.Function, cs *Cont
 				tp.imports[importPathOf(p, id)] = id
 				continue
 			}
-			if allowLocals && id == "rangeindex" {
+			if allowLocals && (id == "rangeindex" || regexp.MustCompile(`^rangeindex\d+$`).MatchString(id)) {
 				ps = append(ps, ghostParam{id, "int"})
 				have[id] = true
 				continue
